@@ -4,7 +4,7 @@ import json
 import lib
 from checks import naming_common as nc
 
-TARGETS = ["Props/C11.v", "Naming/Script.v"]
+TARGETS = ["Props/C11.v", "Naming/Script.v", "Naming/Examples.v"]
 
 MANIFEST = dict(
     text="Invariant Inv of the NamingActor model (instance_size/healthy_instance_size = counts of the instance map, "
@@ -86,11 +86,12 @@ def run(chk, replay=None):
         chk.violation("harness does not build against /repo", {"broken": "harness build", "log": out[-3000:]}, False)
         return
     hashes = nc.get_hashes()
-    if replay:
-        rp = json.load(open(replay))["replay"]
+    rp = json.load(open(replay))["replay"] if replay else None
+    if rp and isinstance(rp, dict) and rp.get("case"):
         cases = [rp["case"]]
+        cases[0].setdefault("services", [list(k) for k in nc.SERVICE_POOL])
     else:
-        n = 220 if tier == "quick" else 2500
+        n = 900 if tier == "quick" else 6000
         cases = nasty_cases(rng) + [nc.random_case(rng, rng.choice([12, 20, 30])) for _ in range(n)]
     ood = out_of_domain_case()
     impl = lib.harness_run_parallel("naming", cases + [ood])
